@@ -13,10 +13,13 @@
 package main
 
 import (
+	"bytes"
+	"context"
 	"encoding/json"
 	"flag"
 	"fmt"
 	"os"
+	"os/exec"
 	"runtime"
 	"sort"
 	"strings"
@@ -53,7 +56,65 @@ func runAll(cases []*Case) []resultT {
 	return res
 }
 
+// A `go` statement runs the call on a goroutine of the interpreter: a panic there (reflect refusing the call, say) cannot
+// be recovered by the harness and would take the whole run down. Such cases are run in a child process (`-one`).
+var oneFlag = flag.String("one", "", "internal: impl|twin — run that mode of the single case read from standard input, print its outcome")
+
+func oneMain() {
+	var c Case
+	if err := json.NewDecoder(os.Stdin).Decode(&c); err != nil {
+		fmt.Fprintln(os.Stderr, "one:", err)
+		os.Exit(2)
+	}
+	c.fixTypes()
+	var o outcome
+	if *oneFlag == "twin" {
+		o = runTwin(&c)
+	} else {
+		o = runImpl(&c)
+	}
+	_ = json.NewEncoder(os.Stdout).Encode(o)
+}
+
+// isolated runs one mode of the case in a child process.
+func isolated(c *Case, mode string) outcome {
+	in, _ := json.Marshal(c)
+	ctx, cancel := context.WithTimeout(context.Background(), 3*caseTimeout)
+	defer cancel()
+	cmd := exec.CommandContext(ctx, os.Args[0], "-one", mode)
+	cmd.Stdin = bytes.NewReader(in)
+	var stdout, stderr bytes.Buffer
+	cmd.Stdout, cmd.Stderr = &stdout, &stderr
+	err := cmd.Run()
+	var o outcome
+	if err == nil {
+		err = json.Unmarshal(stdout.Bytes(), &o)
+	}
+	if err != nil {
+		why := firstLine(err.Error())
+		for _, l := range strings.Split(stderr.String(), "\n") {
+			if strings.HasPrefix(l, "panic:") || strings.HasPrefix(l, "fatal error:") {
+				why = firstLine(l)
+				break
+			}
+		}
+		return outcome{Status: "crash:process died: " + why}
+	}
+	return o
+}
+
+func runIsolated(c *Case) resultT {
+	r := resultT{c: c, ref: runRef(c), impl: isolated(c, "impl")}
+	if c.Dir == "s2h" || c.Dir == "h2s" || c.Dir == "retain" {
+		r.twin = isolated(c, "twin")
+	}
+	return r
+}
+
 func runOne(c *Case) (r resultT) {
+	if c.Ctx == "go" {
+		return runIsolated(c)
+	}
 	r = resultT{c: c}
 	defer func() {
 		if x := recover(); x != nil {
@@ -90,9 +151,13 @@ func nontrivial(c *Case) bool {
 
 func main() {
 	run := common.NewRun("C07")
+	if *oneFlag != "" {
+		oneMain()
+		return
+	}
 	run.Res.Rule = "cases = (direction, signature shape from the type grammar with 0..4 parameters / 0..3 results / variadic or not, " +
 		"callee body in a small body language, argument values, argument forms var/literal/untyped constant/spread/nested call, " +
-		"result context define/assign/blank/return/non-first return operand/nested/statement/defer/condition/expression, way the host " +
+		"result context define/assign/blank/return/non-first return operand/nested/statement/defer/go/condition/expression, callee written as hp.F / a function variable / a variable of a script-written function type / a method value, way the host " +
 		"obtains and calls the function) plus method calls on host values and variables through Globals/Symbols/Use; " +
 		"non-trivial = at least two parameters+results and one non-basic type (calls), an argument (methods), a non-basic type (variables); " +
 		"distinct = distinct serialised case without its id"
